@@ -182,12 +182,28 @@ def _dir_patterns(g):
     return pats
 
 
+def _zero_dir_patterns(g):
+    """Direction fields that are exactly zero on some faces (checkerboard of 0 / +-1) or everywhere."""
+    out = []
+    for mode in range(3):
+        arrs = []
+        for s in g.face_shapes:
+            par = np.indices(s).sum(axis=0) % 2
+            if mode == 0:
+                arrs.append(np.zeros(s))
+            else:
+                arrs.append(np.where(par == (mode - 1), 0.0, np.where(par == 0, 1.0, -1.0)))
+        out.append(arrs)
+    return out
+
+
 def _upwind_dir_part(g, res):
     """convectionUpwindTerm(u, u_upwind) with an explicit direction field, generic signed u."""
     findings = res["findings"]
     rows = np.flatnonzero(g.imask)
     u = U.generic_face(g.mesh, tag=5, signed=True)
-    for pi, arrs in enumerate(_dir_patterns(g)):
+    pats = [(False, a) for a in _dir_patterns(g)] + [(True, a) for a in _zero_dir_patterns(g)]
+    for pi, (has_zero, arrs) in enumerate(pats):
         uup = U.face_from_arrays(g.mesh, arrs)
         M = dense(pf.convectionUpwindTerm(u, uup))
         chain = np.zeros((g.n, g.n))
@@ -202,7 +218,7 @@ def _upwind_dir_part(g, res):
             rc = np.argwhere(bad)[0]
             i = int(rows[rc[0]])
             findings.append({
-                "key": "C05:upwdir:%s" % g.cls,
+                "key": ("C05:upwdir_zero_direction:%s" if has_zero else "C05:upwdir:%s") % g.cls,
                 "msg": "convectionUpwindTerm(u, u_upwind) on %s differs from divergenceTerm(u*upwindMean(phi,u_upwind)): %.6g vs %.6g at row %s col %s (direction pattern %d)"
                        % (U.spec_id(g.spec), a[tuple(rc)], b[tuple(rc)], list(g.cell_of_flat(i)),
                           list(g.cell_of_flat(int(rc[1]))), pi),
